@@ -16,7 +16,7 @@ Definition memN (x : N) (l : list N) : bool := existsb (N.eqb x) l.
 
 (* the model's verdict per rule: Some true = reports, Some false = silent *)
 Definition model_rule (s : schema) (d : document) (r : N) : option bool :=
-  match rule_model (overlap_fuel s d) s d r with
+  match rule_model (if N.eqb r 25 then overlap_fuel s d else O) s d r with
   | Ok [] => Some false
   | Ok _ => Some true
   | _ => None
